@@ -24,6 +24,16 @@ fn main() {
         let cases: u64 = args[4].parse().unwrap_or(1);
         std::process::exit(props::cabi_props::worker_main(&verif_dir, seed, stream, cases, &args[5]));
     }
+    if args[1] == "c18-instr" && args.len() >= 4 {
+        // dnsverif c18-instr <family> <size>: build the family packet, parse it once (run under cachegrind by C18)
+        let fam: usize = args[2].parse().unwrap_or(0);
+        let n: usize = args[3].parse().unwrap_or(0);
+        let (b, name) = props::cost_props::family(fam, n);
+        let len = b.len();
+        let ok = dnssector::DNSSector::new(b).and_then(|d| d.parse()).is_ok();
+        println!("family={} len={} accepted={}", name, len, ok);
+        std::process::exit(0);
+    }
     if args[1] == "c15-one" && args.len() >= 3 {
         std::process::exit(props::cabi_props::one_main(&verif_dir, &args[2]));
     }
